@@ -120,6 +120,7 @@ type Exec struct {
 	mute      bool   // when set: no obligations are emitted
 	edgeReach map[[2]*ssa.BasicBlock]*Term
 	ghostPre  *State // state just before the call whose ghost updates are being evaluated (pre(...) there)
+	privCells []*ssa.Alloc // private slice variables of the function under verification (private.go)
 }
 
 func NewExec(w *World, fn *ssa.Function, fc *FuncContract) *Exec {
@@ -1242,6 +1243,11 @@ func (x *Exec) applyCallEffects(st *State, eff *Effects) {
 	sort.Strings(soft)
 	sort.Strings(hard)
 	top := st.allocTop
+	before := make(map[string]*Term, len(st.heap))
+	for k, v := range st.heap {
+		before[k] = v
+	}
+	defer x.keepPrivateSlices(st, before)
 	for _, p := range soft {
 		var keys []string
 		for k := range st.heap {
